@@ -64,6 +64,8 @@ def strategy():
         # kill immediately followed by start (between two frames) of a running coroutine: it carries on, a waiting
         # one is due in the next frame - and nobody else's schedule changes
         'restarts': st.lists(st.integers(0, 24 * 5 - 1).map(lambda p: [p % 24, p // 24]), max_size=3),
+        # population scale: 0, or the number of coroutines the generated ones are multiplied up to
+        'amp': worldops.size_amp(),
         'dts': worldops.chunked(st.integers(0, 24).map(lambda k: k / 8 if k < 17 else (k - 16) * 1.0), 25,
                                 chunk=5).map(lambda l: l if len(l) >= 3 else l + [0.5] * (3 - len(l)))})
 
@@ -223,7 +225,14 @@ def check_schedule(cos, dts, restarts=(), frac_dt=False):
 def run_case(case):
     # every dt of the case is a Fraction when the first coroutine writes Fractions and the history is odd-sized
     frac_dt = case['cos'][0].get('num', 0) == 2 and len(case['dts']) % 2 == 1
-    facts = check_schedule(case['cos'], case['dts'], [tuple(r) for r in case.get('restarts', ())], frac_dt)
+    cos = case['cos']
+    if case.get('amp'):
+        # many coroutines: copies of the generated ones (same scripts, same starts), enough of them to have far more
+        # than 64 / 128 waiting at the same time
+        cos = (cos * (case['amp'] // len(cos) + 1))[:case['amp'] + len(cos)]
+    facts = check_schedule(cos, case['dts'], [tuple(r) for r in case.get('restarts', ())], frac_dt)
+    if case.get('amp'):
+        facts['amplified_population'] = 1
     if any(c.get('num', 0) >= 2 for c in case['cos']):
         facts['non_builtin_number_waits'] = 1
     if frac_dt:
